@@ -42,7 +42,7 @@ KNOWN_BEYOND = {
     ("SentQuorum", "resend-main-after-backup"), ("SingleSend", "resend-main-after-backup"), ("SentAccepted", "resend-main-after-backup"),
     ("RelayAccepted", "resend-main-after-backup"),
     ("Agreement", "no-fetch-intake-window"), ("SentAccepted", "no-fetch-intake-window"), ("RelayAccepted", "no-fetch-intake-window"),
-    ("FeeSum", "no-fetch-intake-window"), ("SentQuorum", "no-fetch-intake-window"),
+    ("FeeSum", "no-fetch-intake-window"), ("SentQuorum", "no-fetch-intake-window"), ("UnknownRefused", "no-fetch-intake-window"),
     ("SentIsBuilt", "finished-request"), ("SentQuorum", "finished-request"), ("SingleSend", "finished-request"),
 }
 RULE_EXT = ("oracle-service extension: cases = builds (main + backup response transaction found in a real service's incomplete-"
